@@ -283,8 +283,31 @@ impl Engine for WindowEngine {
     }
 
     fn matches(&self, expected: &Value, got: &Value) -> bool {
-        // one-step edges carry `post`; plain behaviours carry the obs itself
         crate::util::json_sub(expected, got)
+    }
+
+    /// C06 states range, direction, reset value and the fast-recovery
+    /// entry/exit rules -- not the size of an increment. A difference from the
+    /// code-shaped model that keeps all of those is MODEL-DRIFT.
+    fn judge(&self, ev: &Value, expected: &Value, got: &Value) -> u8 {
+        if self.matches(expected, got) {
+            return 0;
+        }
+        let Some(pre) = ev.get("pre") else { return 2 };
+        let act = gets(ev, "act");
+        let (w0, w1) = (geti(pre, "w"), geti(got, "w"));
+        let (f0, f1) = (getb(pre, "fast"), getb(got, "fast"));
+        let in_range = (1000..=60000).contains(&w1);
+        let dir_ok = match act {
+            "Nak" => w1 <= w0,
+            "EarnedAck" | "GlobalAck" | "RecoveryTick" => w1 >= w0,
+            "SoftReset" | "FullReset" => w1 == 20000,
+            _ => true,
+        };
+        let enter_ok = !(!f0 && f1) || (act == "Nak" && w1 <= 2000);
+        let exit_ok = !(f0 && !f1) || w1 >= 12000 || act == "FullReset" || act == "Reg3";
+        let conn_ok = expected["conn"] == got["conn"] && expected["heard"] == got["heard"];
+        if in_range && dir_ok && enter_ok && exit_ok && conn_ok { 1 } else { 2 }
     }
 
     fn counters(&self) -> Value {
